@@ -384,7 +384,7 @@ def groupDups (s : HG) : List (List PyId) :=
     else gs ++ [[e]]) []
 
 def scalarOf? : Val → Option Scalar
-  | .sc (.opaque _) => none      -- unhashable (lists / dicts)
+  | .sc (.opaque t) => if t.startsWith "(" then some (.opaque t) else none  -- tuples are hashable; lists / dicts are not
   | .sc x => some x
   | .set _ => none               -- a set is unhashable
 
@@ -535,9 +535,9 @@ where
     | .tup l => .sc (.opaque (tupText l))
     | .none => .sc .none
   tupText (l : List Atom) : String :=
-    "[" ++ ", ".intercalate (l.map (fun a => match a with
+    "(" ++ ", ".intercalate (l.map (fun a => match a with
       | .int i => toString i
-      | .str t => "\"" ++ t ++ "\"")) ++ "]"
+      | .str t => "\"" ++ t ++ "\"")) ++ ")"
 
 /-! ### cleanup(in_place=True) -/
 
